@@ -319,6 +319,21 @@ func Run(r *common.Run) error {
 	}
 	sort.SliceStable(registry, func(i, j int) bool { return registry[i].name < registry[j].name })
 
+	// layer 1: C09's checker (compiled from the same Lean definition the theorem is about) on
+	// the panic skeleton of every function of the C19 files, regenerated from the working tree
+	r.Mark("case pskel")
+	if sk, trusted, err := panicSkeletons(repoDir()); err != nil {
+		r.Notes = append(r.Notes, "panic skeleton extraction failed: "+err.Error())
+		r.Line("pskel k", "extraction-failed")
+	} else {
+		for _, p := range sk {
+			r.Line("pskel "+p[1], "ok")
+			r.Case("pskel "+p[0], true, "pskel")
+		}
+		r.Extra["panic_skeletons"] = len(sk)
+		r.Extra["panic_allow_listed_sites"] = trusted
+	}
+
 	// corpus first
 	r.Mark("case corpus")
 	zeroFormCase(c)
